@@ -667,5 +667,6 @@ def get_hardware_num_denom(
         )
 
     denom_diff = 4 - instr.angle_denom.value
-    angle_num = instr.angle_num.value * (2**denom_diff)
+    # multiples of 2 pi (32 * pi / 16) do not fit the 8-bit numerator field
+    angle_num = (instr.angle_num.value * (2**denom_diff)) % 32
     return (Immediate(angle_num), Immediate(4))
